@@ -426,9 +426,11 @@ func VerifH18x() {
 	u1 := vSymText(2)
 	var keptQuery, keptUser string
 	var copyQuery, copyUser []byte
+	var keptParams Parameters // the collection itself, as the accessor handed it out
 	mw := SessionMiddleware(func(ctx context.Context) (context.Context, error) {
 		if RemoteAddress(ctx).(vAddr).id == 0 {
-			keptUser = ClientParameters(ctx)[ParamUsername]
+			keptParams = ClientParameters(ctx)
+			keptUser = keptParams[ParamUsername]
 			copyUser = append([]byte{}, keptUser...)
 		}
 		return ctx, nil
@@ -451,6 +453,10 @@ func VerifH18x() {
 	vAssert("first-connection-served", copyQuery != nil && copyUser != nil)
 	vAssert("query-kept-from-an-ended-connection-unchanged", vEqStr(keptQuery, string(copyQuery)))
 	vAssert("client-parameter-kept-from-an-ended-connection-unchanged", vEqStr(keptUser, string(copyUser)))
+	// ... and so is the collection the accessor handed out: still the first
+	// connection's parameters, not emptied, not another connection's
+	userNow, has := keptParams[ParamUsername]
+	vAssert("client-parameter-collection-kept-from-an-ended-connection-unchanged", len(keptParams) == 1 && has && vEqStr(userNow, string(copyUser)))
 	vReach("a-second-connection-after-the-first-ended")
 }
 
